@@ -202,6 +202,7 @@ QueryArgClauses(T, prev, ev, post) ==
             [] ev.q = "is_operation_ready"  -> ev.out = "ok" /\ ev.res = (ev.p = s.nxt[ev.j])
             [] ev.q = "earliest_start_time" -> ev.out = "ok" /\ ev.res = EarliestStart(I, s, o)
             [] ev.q = "start_time"          -> ev.out = "ok" /\ ev.res = StartTime(s, ev.j, ev.m)
+            [] ev.q = "min_start_time"      -> ev.out = "ok" /\ ev.res = MinStart(I, s, ev.L)
             [] ev.q = "next_operation"      -> IF hasNext THEN ev.out = "ok" /\ ev.res = <<ev.j, s.nxt[ev.j]>>
                                                ELSE ev.out # "ok"
     IN If(~good, {Tag("C05:query", ev.q)})
@@ -402,6 +403,7 @@ EnvFreshRunClauses(T, prev, ev, post) ==
 MultiResetClauses(T, prev, ev, post) ==
     LET I == T.inst  g == T.env.generator IN
        If(ev.episode # T.env.ctor, {C("C18:episode-config-differs-from-constructor")})
+  \cup If(ev.episode.reward # T.env.ctor.reward, {C("C13:episode-reward-function-differs-from-configured")})
   \cup If(~(Len(I) \in g.jobs[1]..g.jobs[2]) \/ NM(I) > g.machines[2]
           \/ \E j \in Jobs(I) : ~(Len(I[j]) \in g.machines[1]..g.machines[2]), {C("C18:instance-outside-generator-ranges")})
   \cup EnvObsClauses(T, ev.eobs, post)
@@ -478,7 +480,7 @@ GenerateClauses(T, prev, ev, post) ==
     IF ev.out # "ok" THEN {Tag("C19:generate-raised", ev.out)}
     ELSE {Tag("C19:shape", w) : w \in WellShapedWhy(T.gen, ev.inst, ev.nj, ev.nm)}
       \cup If(\E i \in DOMAIN prev.names[ev.g] : prev.names[ev.g][i] = ev.name, {C("C19:name-reused")})
-      \cup If(\E a, b \in DOMAIN post.outs : a < b /\ T.seeds[a] = T.seeds[b] /\ T.seeds[a] # 0
+      \cup If(\E a, b \in DOMAIN post.outs : a < b /\ T.seeds[a] = T.seeds[b] /\ T.seeds[a] # -1
                   /\ ~(IsPrefixOf(post.outs[a], post.outs[b]) \/ IsPrefixOf(post.outs[b], post.outs[a])),
               {C("C19:same-seed-different-sequence")})
 IterClauses(T, prev, ev, post) ==
